@@ -7,7 +7,9 @@ import (
 	"os"
 	"sort"
 
+	_ "github.com/formancehq/ledger/verifh/pimport"
 	_ "github.com/formancehq/ledger/verifh/pnum"
+	_ "github.com/formancehq/ledger/verifh/pquery"
 	_ "github.com/formancehq/ledger/verifh/props"
 	"github.com/formancehq/ledger/verifh/reg"
 )
